@@ -268,6 +268,8 @@ def run(repo, res):
 
 
 MUTANTS = [
+    dict(name="R2 product result is a continuous variable", module="minor", expect=["C04.R11", "C04.R12"],
+         old='                    vtype="B",\n                    name=f"MUL_K_', new='                    name=f"MUL_K_'),
     dict(name="R1 count side dropped", module="minor", expect=["C04.R11", "C04.R12"],
          old='        model.addConstr(expr >= cnt, name=f"CCNT_{sa.major}_2")\n', new=""),
     dict(name="R1 tie ignores added variants of the major", module="minor", expect=["C04.R11", "C04.R12"],
